@@ -7,6 +7,7 @@ import (
 	"go/ast"
 	"go/printer"
 	"go/token"
+	"sort"
 	"strings"
 )
 
@@ -172,22 +173,352 @@ type digDigestFn struct {
 	tail  []string
 }
 
-// digIsWriteElementsCall recognises `err := codec.WriteElements(&msg, …)`.
-func digIsWriteElementsCall(s ast.Stmt) *ast.CallExpr {
-	as, ok := s.(*ast.AssignStmt)
-	if !ok || len(as.Rhs) != 1 || len(as.Lhs) != 1 {
-		return nil
+// ---- symbolic evaluation of a digest function --------------------------------
+//
+// The facts are the per-version ELEMENT LIST handed to codec.WriteElements, not
+// the spelling of the function: the evaluator follows element slices
+// (`x := []interface{}{…}`, `x = append(x, …)`), one or several WriteElements
+// calls before, inside and after the version switch (also in an `if err := …`
+// header), simple local definitions, and `return recv.helper(list)` into a
+// helper method of the same receiver. Guards (`if cond { return …, err }` before
+// anything is written), the switch tag, whether the default clause is an error
+// and whether the result is SHA-256 of the written buffer are facts as well.
+
+type digState struct {
+	lists   map[string][]ast.Expr
+	defs    map[string]ast.Expr
+	locals  map[string]string
+	written []ast.Expr
+	pre     []string
+	guards  []string
+}
+
+func (st *digState) clone() *digState {
+	c := &digState{lists: map[string][]ast.Expr{}, defs: map[string]ast.Expr{}, locals: map[string]string{}}
+	for k, v := range st.lists {
+		c.lists[k] = append([]ast.Expr(nil), v...)
 	}
-	call, ok := as.Rhs[0].(*ast.CallExpr)
-	if !ok || exprString(call.Fun) != "codec.WriteElements" {
+	for k, v := range st.defs {
+		c.defs[k] = v
+	}
+	for k, v := range st.locals {
+		c.locals[k] = v
+	}
+	c.written = append([]ast.Expr(nil), st.written...)
+	c.pre = append([]string(nil), st.pre...)
+	c.guards = append([]string(nil), st.guards...)
+	return c
+}
+
+type digCaseInfo struct {
+	labels, versions []string
+	isDefault        bool
+}
+
+type digEval struct {
+	files     []*ast.File
+	te        *digTypeEnv
+	ce        *constEnv
+	pkg, name string
+	recv      string
+	res       *digDigestFn
+	finals    map[string]bool
+	depth     int
+	broken    bool
+}
+
+func (ev *digEval) failf(format string, a ...interface{}) {
+	ev.broken = true
+	fail("%s.%s: %s", ev.pkg, ev.name, fmt.Sprintf(format, a...))
+}
+
+func digIsNil(e ast.Expr) bool {
+	id, ok := e.(*ast.Ident)
+	return ok && id.Name == "nil"
+}
+
+// digWriteCall recognises codec.WriteElements(&buf, args…).
+func digWriteCall(e ast.Expr) *ast.CallExpr {
+	call, ok := e.(*ast.CallExpr)
+	if !ok || exprString(call.Fun) != "codec.WriteElements" || len(call.Args) < 1 {
 		return nil
 	}
 	return call
 }
 
-// digExtractDigestFn reads one `Digest`-style method: statements before the
-// version switch, the switch with one codec.WriteElements call per case, the
-// default clause and the statements after the switch.
+func (ev *digEval) write(st *digState, call *ast.CallExpr) {
+	args := call.Args[1:]
+	for i, a := range args {
+		if call.Ellipsis.IsValid() && i == len(args)-1 {
+			id, ok := a.(*ast.Ident)
+			if !ok || st.lists[id.Name] == nil {
+				ev.failf("WriteElements(%s...): element list not recoverable", digNodeString(a))
+				return
+			}
+			st.written = append(st.written, st.lists[id.Name]...)
+			continue
+		}
+		st.written = append(st.written, a)
+	}
+}
+
+// returnsError: the statement list ends in a return whose last result is not nil.
+func digReturnsError(body []ast.Stmt) bool {
+	if len(body) == 0 {
+		return false
+	}
+	r, ok := body[len(body)-1].(*ast.ReturnStmt)
+	return ok && len(r.Results) >= 1 && !digIsNil(r.Results[len(r.Results)-1]) &&
+		digWriteCall(r.Results[len(r.Results)-1]) == nil && len(r.Results) >= 2
+}
+
+func digIsErrCheck(cond ast.Expr) bool {
+	b, ok := cond.(*ast.BinaryExpr)
+	if !ok || b.Op != token.NEQ {
+		return false
+	}
+	x, y := digNodeString(b.X), digNodeString(b.Y)
+	return (x == "err" && y == "nil") || (x == "nil" && y == "err")
+}
+
+func (ev *digEval) finish(st *digState, ci *digCaseInfo, kind string) {
+	if ci == nil {
+		ev.failf("no version switch on the path to a result (%s)", kind)
+		return
+	}
+	if ci.isDefault {
+		if kind == "error" {
+			ev.res.dflt = []string{"error"}
+		} else {
+			ev.res.dflt = []string{kind}
+		}
+		return
+	}
+	ev.finals[kind] = true
+	dc := digDigestCase{labels: ci.labels, versions: ci.versions, pre: st.pre}
+	saved := ev.te.locals
+	ev.te.locals = st.locals
+	for _, a := range st.written {
+		expr := a
+		if id, ok := a.(*ast.Ident); ok && st.defs[id.Name] != nil {
+			expr = st.defs[id.Name]
+		}
+		t, ok := ev.te.typeOf(expr)
+		if !ok {
+			ev.failf("case %v: static type of %s not resolvable", ci.labels, digNodeString(expr))
+			t = "?"
+		}
+		dc.args = append(dc.args, digDigestArg{digNodeString(expr), t})
+	}
+	ev.te.locals = saved
+	if ev.res.head == nil {
+		ev.res.head = st.guards
+	} else if strings.Join(ev.res.head, ";") != strings.Join(st.guards, ";") {
+		ev.failf("guards differ between version cases")
+	}
+	ev.res.cases = append(ev.res.cases, dc)
+}
+
+func (ev *digEval) run(stmts []ast.Stmt, st *digState, ci *digCaseInfo) {
+	for i, s := range stmts {
+		if ev.broken {
+			return
+		}
+		switch x := s.(type) {
+		case *ast.DeclStmt:
+			gd, ok := x.Decl.(*ast.GenDecl)
+			if !ok || gd.Tok != token.VAR {
+				st.pre = append(st.pre, digNodeString(s))
+				continue
+			}
+			for _, sp := range gd.Specs {
+				vs := sp.(*ast.ValueSpec)
+				if vs.Type == nil {
+					// var x = expr: a simple definition
+					for k, n := range vs.Names {
+						if k < len(vs.Values) {
+							st.defs[n.Name] = vs.Values[k]
+						}
+					}
+					continue
+				}
+				ts := exprString(vs.Type)
+				for _, n := range vs.Names {
+					st.locals[n.Name] = ts
+				}
+				// the buffer and the result array are plumbing
+				if ts == "bytes.Buffer" || (strings.HasPrefix(ts, "[") && strings.HasSuffix(ts, "]byte")) {
+					continue
+				}
+				for _, n := range vs.Names {
+					st.pre = append(st.pre, "var "+n.Name+" "+ts)
+				}
+			}
+
+		case *ast.AssignStmt:
+			if len(x.Rhs) == 1 {
+				if call := digWriteCall(x.Rhs[0]); call != nil {
+					ev.write(st, call)
+					continue
+				}
+				if len(x.Lhs) == 1 {
+					if id, ok := x.Lhs[0].(*ast.Ident); ok {
+						if cl, ok := x.Rhs[0].(*ast.CompositeLit); ok &&
+							digNodeString(cl.Type) == "[]interface{}" {
+
+							st.lists[id.Name] = append([]ast.Expr(nil), cl.Elts...)
+							continue
+						}
+						if call, ok := x.Rhs[0].(*ast.CallExpr); ok && exprString(call.Fun) == "append" &&
+							len(call.Args) >= 1 && !call.Ellipsis.IsValid() {
+
+							if src, ok := call.Args[0].(*ast.Ident); ok && st.lists[src.Name] != nil {
+								st.lists[id.Name] = append(append([]ast.Expr(nil),
+									st.lists[src.Name]...), call.Args[1:]...)
+								continue
+							}
+						}
+						if x.Tok == token.DEFINE {
+							st.defs[id.Name] = x.Rhs[0]
+							continue
+						}
+					}
+				}
+			}
+			st.pre = append(st.pre, digNodeString(s))
+
+		case *ast.ExprStmt:
+			if call := digWriteCall(x.X); call != nil {
+				ev.write(st, call)
+				continue
+			}
+			st.pre = append(st.pre, digNodeString(s))
+
+		case *ast.IfStmt:
+			if x.Init != nil {
+				if as, ok := x.Init.(*ast.AssignStmt); ok && len(as.Rhs) == 1 {
+					if call := digWriteCall(as.Rhs[0]); call != nil && digIsErrCheck(x.Cond) {
+						ev.write(st, call)
+						continue
+					}
+				}
+			}
+			if digIsErrCheck(x.Cond) && x.Else == nil {
+				continue // error plumbing of a preceding write
+			}
+			if x.Else == nil && x.Init == nil && digReturnsError(x.Body.List) &&
+				len(st.written) == 0 && ci == nil {
+
+				st.guards = append(st.guards, digNodeString(x.Cond))
+				continue
+			}
+			st.pre = append(st.pre, digNodeString(s))
+
+		case *ast.SwitchStmt:
+			if ci != nil || x.Tag == nil || x.Init != nil {
+				ev.failf("unexpected switch statement")
+				return
+			}
+			tag := x.Tag
+			if id, ok := tag.(*ast.Ident); ok && st.defs[id.Name] != nil {
+				tag = st.defs[id.Name]
+			}
+			if ev.res.tag != "" && ev.res.tag != digNodeString(tag) {
+				ev.failf("two different version switches")
+				return
+			}
+			ev.res.tag = digNodeString(tag)
+			seenDefault := false
+			for _, c := range x.Body.List {
+				cc := c.(*ast.CaseClause)
+				info := &digCaseInfo{isDefault: cc.List == nil}
+				seenDefault = seenDefault || info.isDefault
+				for _, l := range cc.List {
+					info.labels = append(info.labels, digNodeString(l))
+					id, ok := l.(*ast.Ident)
+					if !ok {
+						ev.failf("case label %s is not a constant name", digNodeString(l))
+						return
+					}
+					info.versions = append(info.versions, intConst(ev.ce, ev.pkg, id.Name))
+				}
+				rest := append(append([]ast.Stmt(nil), cc.Body...), stmts[i+1:]...)
+				ev.run(rest, st.clone(), info)
+			}
+			if !seenDefault {
+				ev.failf("version switch has no default clause")
+			}
+			return
+
+		case *ast.ReturnStmt:
+			n := len(x.Results)
+			switch {
+			case n >= 2 && !digIsNil(x.Results[n-1]):
+				ev.finish(st, ci, "error")
+			case n >= 2:
+				// success: what is returned?
+				r0 := digNodeString(x.Results[0])
+				if strings.HasPrefix(r0, "sha256.Sum256(") && strings.HasSuffix(r0, ".Bytes())") {
+					ev.finish(st, ci, "sha256")
+				} else {
+					ev.finish(st, ci, "other:"+r0)
+				}
+			case n == 1:
+				// return recv.helper(list…): follow a helper of the same receiver
+				call, ok := x.Results[0].(*ast.CallExpr)
+				sel, ok2 := (ast.Expr)(nil), false
+				if ok {
+					var se *ast.SelectorExpr
+					se, ok2 = call.Fun.(*ast.SelectorExpr)
+					if ok2 {
+						sel = se.X
+					}
+				}
+				if !ok || !ok2 || digNodeString(sel) != ev.recv || ev.depth >= 2 {
+					ev.failf("result %s not understood", digNodeString(x.Results[0]))
+					return
+				}
+				recvT := strings.TrimPrefix(ev.te.locals[ev.recv], "*")
+				if recvT == "" {
+					recvT = strings.TrimPrefix(st.locals[ev.recv], "*")
+				}
+				h := findFunc(ev.files, recvT+"."+call.Fun.(*ast.SelectorExpr).Sel.Name)
+				if h == nil || h.Body == nil || h.Recv == nil || len(h.Recv.List[0].Names) != 1 ||
+					h.Recv.List[0].Names[0].Name != ev.recv {
+
+					ev.failf("helper %s not found / different receiver name", digNodeString(call.Fun))
+					return
+				}
+				st2 := st.clone()
+				k := 0
+				for _, f := range h.Type.Params.List {
+					for _, pn := range f.Names {
+						if k < len(call.Args) {
+							if id, ok := call.Args[k].(*ast.Ident); ok && st.lists[id.Name] != nil {
+								st2.lists[pn.Name] = append([]ast.Expr(nil), st.lists[id.Name]...)
+							} else {
+								st2.defs[pn.Name] = call.Args[k]
+							}
+						}
+						k++
+					}
+				}
+				ev.depth++
+				ev.run(h.Body.List, st2, ci)
+				ev.depth--
+			default:
+				ev.failf("bare return")
+			}
+			return
+
+		default:
+			st.pre = append(st.pre, digNodeString(s))
+		}
+	}
+	ev.failf("function end reached without a return")
+}
+
+// digExtractDigestFn evaluates one `Digest`-style method symbolically.
 func digExtractDigestFn(files []*ast.File, te *digTypeEnv, ce *constEnv,
 	pkg, name string) *digDigestFn {
 
@@ -196,112 +527,34 @@ func digExtractDigestFn(files []*ast.File, te *digTypeEnv, ce *constEnv,
 		fail("%s.%s not found", pkg, name)
 		return nil
 	}
-	res := &digDigestFn{name: name}
+	ev := &digEval{files: files, te: te, ce: ce, pkg: pkg, name: name, finals: map[string]bool{},
+		res: &digDigestFn{name: name}}
+	st := &digState{lists: map[string][]ast.Expr{}, defs: map[string]ast.Expr{}, locals: map[string]string{}}
 	te.locals = map[string]string{}
 	if fd.Recv != nil && len(fd.Recv.List) == 1 && len(fd.Recv.List[0].Names) == 1 {
-		te.locals[fd.Recv.List[0].Names[0].Name] = exprString(fd.Recv.List[0].Type)
+		ev.recv = fd.Recv.List[0].Names[0].Name
+		st.locals[ev.recv] = exprString(fd.Recv.List[0].Type)
+		te.locals[ev.recv] = st.locals[ev.recv]
 	}
-	var sw *ast.SwitchStmt
-	for _, s := range fd.Body.List {
-		if x, ok := s.(*ast.SwitchStmt); ok {
-			if sw != nil {
-				fail("%s.%s: more than one switch", pkg, name)
-				return nil
-			}
-			sw = x
-			continue
-		}
-		if sw == nil {
-			res.head = append(res.head, digNodeString(s))
-		} else {
-			res.tail = append(res.tail, digNodeString(s))
-		}
-	}
-	if sw == nil || sw.Tag == nil || sw.Init != nil {
-		fail("%s.%s: version switch not found", pkg, name)
+	ev.run(fd.Body.List, st, nil)
+	if ev.broken {
 		return nil
 	}
-	res.tag = digNodeString(sw.Tag)
-	seenDefault := false
-	for _, c := range sw.Body.List {
-		cc := c.(*ast.CaseClause)
-		if cc.List == nil {
-			seenDefault = true
-			for _, s := range cc.Body {
-				res.dflt = append(res.dflt, digNodeString(s))
-			}
-			continue
-		}
-		dc := digDigestCase{}
-		for _, l := range cc.List {
-			dc.labels = append(dc.labels, digNodeString(l))
-			id, ok := l.(*ast.Ident)
-			if !ok {
-				fail("%s.%s: case label %s is not a constant name", pkg,
-					name, digNodeString(l))
-				return nil
-			}
-			dc.versions = append(dc.versions, intConst(ce, pkg, id.Name))
-		}
-		// local variable declarations of the clause (`var isSidecar uint8`)
-		locals := map[string]string{}
-		for k, v := range te.locals {
-			locals[k] = v
-		}
-		var call *ast.CallExpr
-		for _, s := range cc.Body {
-			if c := digIsWriteElementsCall(s); c != nil {
-				if call != nil {
-					fail("%s.%s case %v: two WriteElements calls", pkg,
-						name, dc.labels)
-					return nil
-				}
-				call = c
-				continue
-			}
-			if call == nil {
-				dc.pre = append(dc.pre, digNodeString(s))
-				if ds, ok := s.(*ast.DeclStmt); ok {
-					if gd, ok := ds.Decl.(*ast.GenDecl); ok && gd.Tok == token.VAR {
-						for _, sp := range gd.Specs {
-							vs := sp.(*ast.ValueSpec)
-							if vs.Type != nil {
-								for _, n := range vs.Names {
-									locals[n.Name] = exprString(vs.Type)
-								}
-							}
-						}
-					}
-				}
-			} else {
-				dc.post = append(dc.post, digNodeString(s))
-			}
-		}
-		if call == nil || len(call.Args) < 1 || digNodeString(call.Args[0]) != "&msg" ||
-			call.Ellipsis.IsValid() {
-
-			fail("%s.%s case %v: no `err := codec.WriteElements(&msg, …)`",
-				pkg, name, dc.labels)
-			return nil
-		}
-		saved := te.locals
-		te.locals = locals
-		for _, a := range call.Args[1:] {
-			t, ok := te.typeOf(a)
-			if !ok {
-				fail("%s.%s case %v: static type of %s not resolvable", pkg,
-					name, dc.labels, digNodeString(a))
-				t = "?"
-			}
-			dc.args = append(dc.args, digDigestArg{digNodeString(a), t})
-		}
-		te.locals = saved
-		res.cases = append(res.cases, dc)
+	if len(ev.res.cases) == 0 {
+		fail("%s.%s: no version case found", pkg, name)
+		return nil
 	}
-	if !seenDefault {
-		fail("%s.%s: version switch has no default clause", pkg, name)
+	if ev.res.head == nil {
+		ev.res.head = []string{}
 	}
-	return res
+	if ev.res.dflt == nil {
+		ev.res.dflt = []string{"missing"}
+	}
+	for k := range ev.finals {
+		ev.res.tail = append(ev.res.tail, k)
+	}
+	sort.Strings(ev.res.tail)
+	return ev.res
 }
 
 // digNewLeanImporting is newLean for a generated file that imports a (hand-written,
